@@ -273,6 +273,7 @@ def _collection(V):
         return Opaque(f"obj:bytes-of-{len(enc_calls)}")
     cls = V.cls(f"{COL}:Collection")
     readonly = V.choose([True, False], "readonly")
+    V.witness(lambda ev: {"op": "collection-reads", "signature": "collection-reads"})
     V.cover()
     I.target = f"{COL}:Collection.__init__"
     try:
